@@ -340,6 +340,19 @@ type TTagMix struct {
 
 func init() { reg[TTagMix]("tagmix") }
 
+// Maps whose key type is not an integer, float or string go through a reflection-based
+// fallback in the typed writer (seeded change C01-m6); 8-bit keys and bool values for good measure.
+type TMapKeys struct {
+	ID int64              `parquet:"id"`
+	B  map[bool]int64     `parquet:"b"`
+	U  map[[16]byte]int32 `parquet:"u"`
+	F  map[[4]byte]string `parquet:"f"`
+	I8 map[int8]int64     `parquet:"i8"`
+	S  map[string]bool    `parquet:"s"`
+}
+
+func init() { reg[TMapKeys]("mapkeys") }
+
 func typeByName(n string) *typeEntry {
 	for _, t := range catalogue {
 		if t.Name == n {
